@@ -40,8 +40,8 @@ claim("C07",
       'DESIGN.md §8 C07')
 claim("C08",
       'Lean 4 theorems on the pipeline model with the interlock flag off: no ID stall ever, stalls counter counts ecall drains only, ID reads after WB with no forwarding (stale reads), nop-padding yields hazard-free programs, skeleton without interlock; correspondence with hazard detection disabled; independent interlock-free reference + nop-padding oracle',
-      "16 theorems (Props/C08.lean): no_id_stall_init / no_id_stall / no_id_stall_run, hazard_flag_constant, stalls_count_ex_only, ex_stall_is_ecall_drain, regs_written_by_wb_only, id_reads_after_wb, id_operands_stale, id_output_latched, stale_read_harmless, pad_hazard_free (every program), pad_layout, hazard_free_no_interlock, skeleton_interlock_off. The run-level clause 'a hazard-free program computes single-cycle results with detection off' (hazard_free_refines) re-instantiates the C02 control proof and is being added (DESIGN.md §13); until then it is tied by correspondence and the nop-padding oracle.",
-      TB + "PARTIAL for hazard_free_refines only (DESIGN.md §13).",
+      "24 theorems (Props/C08.lean, Props/C08Main.lean): no_id_stall_init / no_id_stall / no_id_stall_run, hazard_flag_constant, stalls_count_ex_only, ex_stall_is_ecall_drain, regs_written_by_wb_only, id_reads_after_wb, id_operands_stale, id_output_latched, stale_read_harmless, pad_hazard_free (every program), pad_layout, hazard_free_no_interlock, skeleton_interlock_off. The run-level clause 'a hazard-free program computes single-cycle results with detection off' (hazard_free_refines) re-instantiates the C02 control proof and is being added (DESIGN.md §13); until then it is tied by correspondence and the nop-padding oracle.",
+      TB + "As C02 (ProgWF, StOK, no icache for the composed statements).",
       'DESIGN.md §8 C08, §13')
 claim("C09",
       "Lean 4 proof: erasing data from the cache model commutes with every accepted operation of a tag-only reference cache (policy-generic), counters and penalties follow by induction; correspondence with the real policies",
